@@ -22,7 +22,7 @@ def run(cmd, cwd, timeout=300, env=ENV):
         return 124, "timeout"
 
 def worker(args):
-    wid, muts = args
+    wid, muts, outpath, recheck = args
     d = tempfile.mkdtemp(prefix="csmutw%d." % wid, dir="/tmp")
     repo = os.path.join(d, "repo")
     subprocess.run(["rsync", "-a", "--exclude", ".git", "/repo/", repo + "/"], check=True)
@@ -33,8 +33,22 @@ def worker(args):
         mutated = orig[:m["start"]] + m["repl"].encode() + orig[m["end"]:]
         open(path, "wb").write(mutated)
         rec = dict(m)
-        rc, o = run(["go", "build", "./..."], repo, 300)
-        if rc != 0:
+        rc = 0
+        if recheck:
+            rc = -1
+        else:
+            rc, o = run(["go", "build", "./..."], repo, 300)
+        if recheck:
+            rec["status"] = "survives_tests"
+            caught = {}
+            for c in CHECKS.get(m["file"], "").split():
+                env = dict(ENV, CSVERIFY_REPO=repo, CSVERIFY_EVIDENCE_DIR=os.path.join(d, "ev"))
+                rcc, oc = run([os.environ.get("CSVERIFY_BIN", "/verif/bin/csverify"), "check", c], "/verif", 900, env)
+                rules = sorted(set(l.split(" ")[1].replace("rule=", "") for l in oc.splitlines() if l.startswith("FINDING")))
+                if rules:
+                    caught[c] = rules
+            rec["caught_by"] = caught
+        elif rc != 0:
             rec["status"] = "nocompile"
         else:
             rc, o = run(["go", "vet", "./..."], repo, 300)
@@ -54,6 +68,8 @@ def worker(args):
                         caught[c] = rules + (["INFRA"] if infra else [])
                 rec["caught_by"] = caught
         out.append(rec)
+        with open(outpath, "a") as fo:
+            fo.write(json.dumps(rec) + "\n")
         open(path, "wb").write(orig)
     shutil.rmtree(d, ignore_errors=True)
     return out
@@ -64,9 +80,15 @@ def main():
     ap.add_argument("--workers", type=int, default=8)
     ap.add_argument("--limit", type=int, default=0)
     ap.add_argument("--out", default="/verif/mutation/results.jsonl")
+    ap.add_argument("--recheck", default="", help="results file of an earlier run: re-run the checks on its unreported survivors only")
     a = ap.parse_args()
     muts = []
-    for f in a.files.split(","):
+    if a.recheck:
+        for l in open(a.recheck):
+            r0 = json.loads(l)
+            if r0["status"] == "survives_tests" and not r0["caught_by"]:
+                muts.append({k: r0[k] for k in ("file", "func", "line", "kind", "desc", "start", "end", "repl")})
+    for f in ([] if a.recheck else a.files.split(",")):
         if not os.path.exists("/repo/" + f):
             continue
         p = subprocess.run(["/verif/bin/mutgen", "/repo/" + f, f], stdout=subprocess.PIPE, check=True)
@@ -77,13 +99,11 @@ def main():
         random.Random(1).shuffle(muts)
         muts = muts[:a.limit]
     print("mutants:", len(muts), file=sys.stderr)
-    chunks = [(i, muts[i::a.workers]) for i in range(a.workers)]
+    chunks = [(i, muts[i::a.workers], a.out, bool(a.recheck)) for i in range(a.workers)]
     os.makedirs(os.path.dirname(a.out), exist_ok=True)
-    with multiprocessing.Pool(a.workers) as pool, open(a.out, "w") as fo:
-        for res in pool.imap_unordered(worker, chunks):
-            for r in res:
-                fo.write(json.dumps(r) + "\n")
-            fo.flush()
+    open(a.out, "w").close()
+    with multiprocessing.Pool(a.workers) as pool:
+        list(pool.imap_unordered(worker, chunks))
     # summary
     rs = [json.loads(l) for l in open(a.out)]
     surv = [r for r in rs if r["status"] == "survives_tests"]
